@@ -255,12 +255,22 @@ struct static_array  // NOLINT(fuchsia-multiple-inheritance) : multiple inherita
 		);
 	}
 
-	constexpr static_array(decay_type&& other, allocator_type const& alloc) noexcept
-	: array_alloc{alloc}, ref(std::exchange(other.base_, nullptr), other.extensions()) {
-		std::move(other).layout_mutable() = typename static_array::layout_type(typename static_array::extensions_type{});  // = {};  careful! this is the place where layout can become invalid
+	constexpr static_array(decay_type&& other, allocator_type const& alloc) noexcept(multi::allocator_traits<allocator_type>::is_always_equal::value)
+	: array_alloc{alloc}, ref(nullptr, typename static_array::extensions_type{}) {
+		if(alloc == other.get_allocator()) {  // storage can change hands only between equal allocators
+			this->base_            = std::exchange(other.base_, nullptr);
+			this->layout_mutable() = std::exchange(std::move(other).layout_mutable(), typename static_array::layout_type(typename static_array::extensions_type{}));  // careful! this is the place where layout can become invalid
+		} else {  // otherwise the elements are moved one by one into storage of this allocator; `other` is left empty
+			this->layout_mutable() = other.layout();
+			static_array::allocate();
+			construct_or_deallocate_([&] {
+				adl_alloc_uninitialized_move_n(this->alloc(), other.data_elements(), other.num_elements(), this->data_elements());
+			});
+			other.clear();
+		}
 	}
 
-	constexpr explicit static_array(decay_type&& other) noexcept
+	constexpr explicit static_array(decay_type&& other) noexcept(multi::allocator_traits<allocator_type>::is_always_equal::value)
 	: static_array(std::move(other), allocator_type{}) {}  // 6b
 
 	// extensions of the array built from [first, last): an empty range has no first element to take the inner extensions from
@@ -1317,7 +1327,8 @@ struct array : static_array<T, D, Alloc> {
 	friend BOOST_MULTI_HD constexpr auto move(array& self) -> decltype(auto) { return std::move(self); }
 	friend BOOST_MULTI_HD constexpr auto move(array&& self) -> decltype(auto) { return std::move(self); }
 
-	array(array&& other, typename array::allocator_type const& alloc) noexcept : static_array<T, D, Alloc>{std::move(other), alloc} {
+	array(array&& other, typename array::allocator_type const& alloc) noexcept(multi::allocator_traits<typename array::allocator_type>::is_always_equal::value)
+	: static_array<T, D, Alloc>{std::move(other), alloc} {
 		assert(this->stride() != 0);
 	}
 	array(array&& other) noexcept : array{std::move(other), other.get_allocator()} {
@@ -1340,9 +1351,20 @@ struct array : static_array<T, D, Alloc> {
 	}
 
 #ifndef NOEXCEPT_ASSIGNMENT
-	auto operator=(array&& other) noexcept -> array& {
+	auto operator=(array&& other) noexcept(
+		multi::allocator_traits<typename array::allocator_type>::propagate_on_container_move_assignment::value ||
+		multi::allocator_traits<typename array::allocator_type>::is_always_equal::value
+	) -> array& {
 		if(this == std::addressof(other)) {
 			return *this;
+		}
+		if constexpr(
+			!multi::allocator_traits<typename array::allocator_type>::propagate_on_container_move_assignment::value &&
+			!multi::allocator_traits<typename array::allocator_type>::is_always_equal::value
+		) {
+			if(!(this->alloc() == other.alloc())) {  // storage of an unequal allocator cannot be adopted:
+				return *this = array{std::move(other), this->get_allocator()};  // move the elements into storage of this allocator, then adopt that
+			}
 		}
 		clear();
 		this->base_ = other.base_;
